@@ -33,7 +33,7 @@ MCNext ==
      /\ \E ver \in Vers, p \in Purposes, c \in ClaimsSet, f \in FooterSet, a \in AadSet :
           \E k \in (IF p = "local" THEN LocalKeys ELSE SecretKeys) : SealBegin(ver, p, k, c, f, a)
   \/ \E ok \in BOOLEAN : Draw(ok) \/ EncodeFooter(ok) \/ EncodeClaims(ok)
-  \/ Emit(FreshWire, FreshWire)
+  \/ Emit(FreshWire, {FreshWire})
   \/ \E e \in ErrClasses : SealFail(e)
   \/ \E ver \in Vers, p \in Purposes, w \in Wires, f \in FooterSet, a \in AadSet :
         \E k \in (IF p = "local" THEN LocalKeys ELSE PublicKeys) : UnsealBegin(ver, p, w, f, k, a)
@@ -45,7 +45,7 @@ MCNext ==
           \E k \in (IF kt = "local" THEN LocalKeys ELSE SecretKeys) :
             \E w \in (CASE wk = "pie" -> LocalKeys [] wk = "pw" -> Passwords [] wk = "seal" -> PublicKeys) :
               WrapBegin(wk, ver, kt, k, w)
-  \/ WrapEmit(FreshBlob, FreshBlob)
+  \/ WrapEmit(FreshBlob, {FreshBlob})
   \/ WrapFail("crypto")
   \/ \E wk \in WrapKinds, ver \in Vers, kt \in {"local", "secret"}, b \in BlobIds, ok \in BOOLEAN, e \in ErrClasses :
         \E k \in AllKeys :
@@ -64,11 +64,11 @@ InvHonestNotRefused ==
 InvHonestSealSucceeds ==
   (op.kind = "seal" /\ op.fEnc /\ op.cEnc /\ ~op.failed /\ AadSupported(op)) =>
       /\ \A e \in ErrClasses : ~ENABLED SealFail(e)
-      /\ ENABLED Emit(FreshWire, FreshWire)
+      /\ ENABLED Emit(FreshWire, {FreshWire})
 
 \* C16: nothing is emitted once a draw or an encoder failed
 InvFailClosed ==
-  (op.kind \in {"seal", "wrap"} /\ op.failed) => ~ENABLED Emit(FreshWire, FreshWire) /\ ~ENABLED WrapEmit(FreshBlob, FreshBlob)
+  (op.kind \in {"seal", "wrap"} /\ op.failed) => ~ENABLED Emit(FreshWire, {FreshWire}) /\ ~ENABLED WrapEmit(FreshBlob, {FreshBlob})
 
 \* C02: a forged wire, another key, another footer or assertion is never authentic
 InvAuthIsTableMembership ==
